@@ -7,8 +7,8 @@ Space (every member is visited, nothing sampled)
             roles is covered (the constructor walks symbols in name order); every symbol is tried as start
             symbol; thorough additionally hands the productions dict over in reversed insertion order.
   hidden  : directed family "recursive symbol behind nullable prefixes" (models.grammar.family_hidden)
-            under all 24 assignments of the names A,B,C,E to the four roles, start symbol = each of the
-            two rich roles.
+            under all 24 assignments of the names A,B,C,E to the four roles, start symbol = role R
+            (thorough: R and S).
   both smart_factorization settings; for every accepted grammar all token strings of length <= L.
 
 Oracle 1: GrammarIsRecursive  <=>  the reference left-reach relation has a cycle.
@@ -59,6 +59,7 @@ _SIZED = {
     "thorough": [("AB", "xy", 2, 3, 6, 4, 16), ("ABC", "x", 2, 3, 6, 4, 120), ("ABC", "xy", 2, 2, 5, 3, 40)],
 }
 _HIDDEN_L = {"quick": 3, "thorough": 4}
+_HIDDEN_STARTS = {"quick": 1, "thorough": 2}      # start symbol: role R / roles R and S
 NAMES4 = ("A", "B", "C", "E")
 
 
@@ -70,7 +71,7 @@ def bounds(tier):
          "dict_orders": 2 if tier == "thorough" else 1}
         for n, t, ma, ml, ms, L, _ in _SIZED[tier]],
         "hidden_family": {"grammars_per_name_assignment": sum(1 for _ in G.family_hidden(NAMES4, "xy")),
-                          "name_assignments": 24, "start_symbols": 2, "input_len_max": _HIDDEN_L[tier]},
+                          "name_assignments": 24, "start_symbols": _HIDDEN_STARTS[tier], "input_len_max": _HIDDEN_L[tier]},
         "modes": ["smart_factorization=True", "smart_factorization=False"],
         "step_budget": H.STEP_BUDGET}
     return b
@@ -173,8 +174,8 @@ def check_grammar(cfg, start, prods, inputs, acc, modes=(True, False), tag=None)
                 elif r == "ParsingError":
                     feats.append("parse:ParsingError")
                 else:
-                    if worst is None:
-                        worst = (r, toks, payload, H.MON.pushes, H.MON.max_depth, H.MON.depth_bound)
+                    worst = (r, toks, payload, H.MON.pushes, H.MON.max_depth, H.MON.depth_bound)
+                    break        # the shortest failing input of this grammar is the witness
             if worst is not None:
                 r, toks, payload, pushes, depth, bound = worst
                 outcome.append("!" + r)
@@ -225,7 +226,7 @@ def run_shard(shard, tier, seed, acc):
         inputs = _inputs(cfg, _HIDDEN_L[tier])
         n = 0
         for prods in G.family_hidden(names, "xy"):
-            for start in names[:2]:
+            for start in names[:_HIDDEN_STARTS[tier]]:
                 feats, nt, out = check_grammar(cfg, start, prods, inputs, acc)
                 acc.case(nontrivial=nt, features=feats + ["family:hidden"], outcome=out, traces=2)
                 n += 1
